@@ -311,15 +311,22 @@ def check(env, rep, tier):
             rep.missing("C06.7", "Packet::set_observe_value / get_observe_value")
         else:
             import provenance
-            wraps, typed = [], 0
+            wraps, typed, wrap_locals = [], 0, set()
             for bb in b["blocks"]:
                 if bb.get("cleanup"):
                     continue
                 for stt in bb["stmts"]:
                     if stt["k"] == "assign" and stt["rv"]["k"] == "aggregate" and str(stt["rv"]["kind"].get("path", "")).startswith("option_value::OptionValueU"):
                         wraps.append((stt["rv"]["kind"]["path"], provenance.trace(b, stt["rv"]["ops"][0])))
+                        wrap_locals.add(stt["place"]["l"])
+            for bb in b["blocks"]:
+                if bb.get("cleanup"):
+                    continue
                 t = bb["term"]
-                if t["k"] == "call" and provenance.callee_path(t) in ("packet::Packet::add_option_as", "packet::Packet::set_options_as"):
+                # a typed write: the wrapped value is handed to a Packet method (add_option_as, set_options_as, or a private
+                # helper generic over the option value type)
+                if t["k"] == "call" and provenance.callee_path(t).startswith("packet::Packet::") \
+                        and any(a_["k"] in ("move", "copy") and a_["place"]["l"] in wrap_locals for a_ in t["args"]):
                     typed += 1
             ok = typed >= 1 and len(wraps) >= 1 and all(w[0].endswith("U32") and w[1] == ([], ("arg", 2, "")) for w in wraps)
             rep.ob("C06.7", "set_observe_value", ok,
